@@ -492,9 +492,16 @@ impl BigDecimal {
                 let p = ten_to_the(diff);
                 let (mut q, r) = self.int_val.div_rem(&p);
 
+                // round on the magnitude of the remainder, away from zero
+                let r = r.abs();
+
                 // check for "leading zero" in remainder term; otherwise round
                 if p < 10 * &r {
-                    q += get_rounding_term(&r);
+                    if self.int_val.is_negative() {
+                        q -= get_rounding_term(&r);
+                    } else {
+                        q += get_rounding_term(&r);
+                    }
                 }
 
                 BigDecimal {
